@@ -41,6 +41,16 @@ func UnevalSchema(r *rand.Rand) (doc map[string]any, array bool) {
 		}
 		root["$defs"] = defs
 	}
+	if !g.array && r.IntN(6) == 0 {
+		// a pattern that is a literal anchored at both ends, next to names that merely CONTAIN the literal (k1 / k10..k19 of
+		// the size-stressed instances; a / ab)
+		pp, _ := root["patternProperties"].(map[string]any)
+		if pp == nil {
+			pp = map[string]any{}
+		}
+		pp[Pick(r, []string{"^k1$", "^k$", "^a$", "^k2$"})] = g.leaf()
+		root["patternProperties"] = pp
+	}
 	if r.IntN(8) == 0 {
 		ForeignKeywords(r, root, D2020, UNames) // draft-07 keywords are unknown keywords here: no assertions, no annotations
 	}
